@@ -247,3 +247,6 @@ impl<S> fmt::Debug for LocalAssetCache<S> {
             .finish()
     }
 }
+
+#[cfg(kani)]
+include!(concat!(env!("ASSETS_MANAGER_VERIF"), "/incrate/local_cache.rs"));
